@@ -13,7 +13,8 @@ LEVEL_TEXT = ("locate_droplets is verified for the whole symbolic configuration 
 LEVEL_NOTE = ("A-FP; assumed contracts: locate_droplets_in_mask -> SphericalDroplets of the grid's dimension (on-axis for cylindrical grids), "
               "refine_droplets -> one droplet per candidate of class >= DiffuseDroplet with the same mode count, Emulsion(list) copies members "
               "in order; numpy recarray creation yields arbitrary initial field values; heap model of lists and records")
-CONTRACTS = [c.ident for c in (lc.LocateDroplets(), lc.FromDroplet())]
+from contracts import droplets as _dr
+CONTRACTS = [c.ident for c in (lc.LocateDroplets(), lc.FromDroplet(), _dr.WidthSetter(), _dr.WidthGetter())]
 LEMMAS = []
 BOUNDED = [ContractSampling("configuration-matrix-on-real-fields", [lc.LocateDroplets().ident],
                             "the complete configuration matrix (6 grid kinds/dims x modes 0/>0 x width given/not x refine on/off, plus the "
